@@ -107,6 +107,7 @@ def find_block(src, header):
     want = _strip_vis(norm(header))
     first = re.escape(want.split(' ')[0].split('<')[0])
     hits = []
+    exact = []
     for m in re.finditer(r'(?m)^[ \t]*((?:pub(?:\([^)]*\))?\s+)?(?:unsafe\s+)?' + first + r')\b', src):
         s = m.start(1)
         brace = None
@@ -127,6 +128,10 @@ def find_block(src, header):
         head = _strip_vis(norm(src[s:brace]))
         if head == want or head.startswith(want + ' ') or head.startswith(want + '<') or head.startswith(want + ':'):
             hits.append((s, brace, match_brace(src, brace)))
+            if head == want:
+                exact.append(hits[-1])
+    if len(hits) != 1 and len(exact) == 1:
+        return exact[0]     # several headers start with the text, exactly one IS the text
     if len(hits) != 1:
         raise LostAnchor(f"block header {header!r}: {len(hits)} matches")
     return hits[0]
